@@ -2064,3 +2064,42 @@ package apd
 //@   outs z, x, y
 //@   allocates
 //@   ensures val(z) == uf_gcd(old(val(a)), old(val(b))) && ret == z && rep(z) && (x != nil ==> rep(x) && val(x) == uf_bezx(old(val(a)), old(val(b)))) && (y != nil ==> rep(y) && val(y) == uf_bezy(old(val(a)), old(val(b))))
+
+// ---------------------------------------------------------------- parser (C04, second sentence): a successfully parsed value is well formed
+// Strings are opaque codes; strings.HasPrefix is the uninterpreted uf_hasprefix. What is proved is the plumbing that makes the parsed
+// value well formed: the form is one of the four, and the coefficient handed to setExponent is non-negative because a mantissa that
+// starts with a sign is rejected before math/big parses it.
+//@ func (*BigInt).SetString
+//@   trusted math/big's parser (an optional sign, then digits in the given base): a negative result implies the text starts with "-"
+//@   assigns z
+//@   outs z
+//@   ensures (ret0 == nil || ret0 == z) && (ret1 <==> ret0 != nil) && (ret1 && val(z) < 0 ==> uf_hasprefix(s, "-") == 1)
+//@ func consumePrefix
+//@   props C04
+//@   pure
+//@ func (*Decimal).setString
+//@   props C04 C06
+//@   requires writable(d) && c != nil
+//@   assigns d
+//@   ensures [wf] ret1 == nil ==> inv(d)
+//@   ensures [closed] closed(ret0)
+//@ func (*Decimal).SetString
+//@   props C04 C06
+//@   exported
+//@   requires writable(d)
+//@   assigns d
+//@   ensures [wf] ret2 == nil ==> inv(d) && ret0 == d
+//@ func (*Context).SetString
+//@   props C04 C06
+//@   exported
+//@   requires writable(d)
+//@   assigns d
+//@   ensures [wf] ret2 == nil ==> inv(d) && ret0 == d
+//@ func (*Context).NewFromString
+//@   props C04
+//@   exported
+//@   ensures [wf] ret2 == nil ==> ret0 != nil && inv(ret0)
+//@ func NewFromString
+//@   props C04
+//@   exported
+//@   ensures [wf] ret2 == nil ==> ret0 != nil && inv(ret0)
